@@ -100,7 +100,7 @@ def type_sig(m, t, seen=()):
     return ("scalar", name if "anonymous" not in name else "<anon>", t.size)
 
 
-PATTERN = bytes(((i * 37 + 3) % 251) % 6 if i % 5 == 0 else (i * 11) % 127 + 1 for i in range(160)) + bytes(40)
+PATTERN = bytes(((i * 37 + 3) % 251) % 6 if i % 5 == 0 else ((i * 11) % 127 + 1) | (0x80 if i % 3 == 0 else 0) for i in range(160)) + bytes(40)
 
 
 def signature(m, cs, names, anon_consts):
@@ -195,6 +195,33 @@ def run_case(case, ctx):
             f"{what}: {diff[:5]} differ; {k0}: base {bsig[k0]!r} vs edited {esig.get(k0)!r}\n--- base\n{base_text}\n--- edited\n{''.join(texts)!r}",
             info={"crlf": case.get("crlf", False), "keys": diff},
         )
+    # isolation: an item loaded with nothing but its own dependencies has the signature it has in the full set
+    if case["edit"] in ("order", "mixed") and items:
+        pick = items[(case.get("perm") or [0])[0] % len(items)]
+        provides = {}
+        for i, it in enumerate(items):
+            for n_ in it.names + [it.name]:
+                provides[n_] = i
+        need = set()
+        todo = [provides[pick.name]]
+        while todo:
+            i = todo.pop()
+            if i in need:
+                continue
+            need.add(i)
+            todo += [provides[d] for d in items[i].deps if d in provides]
+        solo = _load(m, ["".join(items[i].text for i in sorted(need))], case)
+        if isinstance(solo, Err):
+            raise Violation("definition-rejected", f"item with its dependencies only rejected: {solo}\n{''.join(items[i].text for i in sorted(need))}", solo.where)
+        pnames = [n_ for n_ in pick.names if pick.kind != "define"]
+        ssig = signature(m, solo, pnames, None)
+        for k_ in pnames + [n_ + "@parse" for n_ in pnames]:
+            if k_ in ssig and ssig[k_] != bsig.get(k_):
+                raise Violation(
+                    "unrelated-definitions-interfere",
+                    f"{k_}: loaded with only its dependencies {ssig[k_]!r}, inside the full definition set {bsig.get(k_)!r}\n--- full\n{base_text}\n--- alone\n{''.join(items[i].text for i in sorted(need))}",
+                )
+        ctx.count("isolation:checked")
     ctx.count("edit:" + case["edit"])
     if case.get("crlf"):
         ctx.count("edit:crlf")
@@ -310,9 +337,34 @@ def _run_aliases(case, ctx, m):
     ctx.sample(case, "aliases")
 
 
+BODIES = ["uint8 a;", "uint16 a; uint8 b;", "uint32 a;", "char a[3];", "uint8 a; uint8 b; uint8 c; uint8 d; uint8 e;", "int64 a;", "uint16 a : 4; uint16 b : 12;", "uint24 a; uint24 b;"]
+
+
+@st.composite
+def collision_case(draw):
+    """Unrelated structures that happen to use the same tag / element type names and array counts."""
+    n = draw(st.integers(1, 3))
+    b1, b2 = draw(st.sampled_from(BODIES)), draw(st.sampled_from(BODIES))
+    kind = draw(st.sampled_from(["tag", "tag", "u48", "anon-vs-tag"]))
+    if kind == "tag":
+        t1 = f"struct S1 {{ uint8 pre; struct item {{ {b1} }} items[{n}]; }};\n"
+        t2 = f"struct S2 {{ struct item {{ {b2} }} items[{n}]; uint16 post; }};\n"
+    elif kind == "u48":
+        t1 = f"struct S1 {{ int48 v[{n}]; uint8 z; }};\n"
+        t2 = f"struct S2 {{ uint48 v[{n}]; uint8 z; }};\n"
+    else:
+        t1 = f"struct S1 {{ struct item {{ {b1} }} one; struct item2 {{ {b1} }} two[{n}]; }};\n"
+        t2 = f"union S2 {{ struct item {{ {b2} }} one[{n}]; struct item2 {{ {b2} }} two[{n}]; }};\n"
+    items = [{"kind": "struct", "name": "S1", "text": t1, "deps": [], "names": ["S1"]}, {"kind": "struct", "name": "S2", "text": t2, "deps": [], "names": ["S2"]}]
+    if draw(st.booleans()):
+        items.insert(1, {"kind": "define", "name": "K9", "text": "#define K9 1\n", "deps": [], "names": ["K9"]})
+    return {"items": items, "edit": "order", "perm": [draw(st.integers(0, 5)) for _ in items], "compiled": draw(st.booleans()), "align": draw(st.booleans())}
+
+
 def stages(tier):
     q = tier == "quick"
     return [
+        HypStage("collisions", collision_case, examples=150 if q else 1500, shards=1 if q else 2),
         HypStage("trivia", lambda: edit_case("trivia"), examples=300 if q else 4000, shards=5 if q else 8),
         HypStage("order", lambda: edit_case("order"), examples=150 if q else 2000, shards=2 if q else 4),
         HypStage("split", lambda: edit_case("split"), examples=150 if q else 2000, shards=2 if q else 4),
